@@ -79,6 +79,20 @@ fn main() {
             }
         }
     }
+    // a panic that escapes a check (harness or library code reached outside a guard) is a machinery
+    // failure with a visible cause, never a silent abort and never a verdict
+    let code = match common::guard(|| run_command(&args, tier)) {
+        Ok(c) => c,
+        Err(p) => {
+            let first = common::FIRST_PANIC_ANY_THREAD.lock().ok().and_then(|g| g.clone()).unwrap_or_default();
+            println!("MACHINERY: {} panicked outside a guard at {} (first panic recorded on any thread: {})", args[1], p, first);
+            2
+        }
+    };
+    std::process::exit(code);
+}
+
+fn run_command(args: &[String], tier: Tier) -> i32 {
     let code = match args[1].as_str() {
         "census" => {
             let n: usize = args.get(2).and_then(|s| s.parse().ok()).unwrap_or(5);
@@ -134,5 +148,5 @@ fn main() {
             2
         }
     };
-    std::process::exit(code);
+    code
 }
